@@ -274,8 +274,11 @@ def replay(ctx, binary, fam, cases, cases_dev=None, scope="", what="", nproc=Non
 
 
 def replay_file(ctx, pkg, path):
-    binary = vlib.build(ctx, pkg)
     blob = json.load(open(path))
+    if blob["case"].get("direction") == "B":
+        direction_b(ctx, ctx.prop)
+        return
+    binary = vlib.build(ctx, pkg)
     hc = blob["case"]["harness_case"]
     recs = vlib.run_harness(ctx, binary, cases=[hc])
     for r in recs:
@@ -294,3 +297,137 @@ def parallel(jobs, limit=6):
     with ThreadPoolExecutor(max_workers=max(1, min(limit, len(jobs)))) as ex:
         futs = [ex.submit(j) for j in jobs]
         return [f.result() for f in futs]
+
+
+# ---------------------------------------------------------------------------
+# direction B: traces of the repository's own tests against spec/TraceRuntime.tla
+# ---------------------------------------------------------------------------
+TRACE_EVS = {"rt.load.unchanged", "rt.load.compile_error", "rt.load.add", "rt.load.registered", "rt.load.closed_old",
+             "rt.load.swapped", "rt.unload", "rt.line.sent", "rt.line.recv", "vm.exit"}
+
+
+def record_tests(ctx, plan, timeout=1500):
+    """Runs the repository's own tests with the hooks on.  plan: list of (package, None | [test names]);
+    with test names every test runs in a process of its own (one Runtime per trace segment - the hook
+    events carry no Runtime identity).  Returns {segment id: [normalised events]}."""
+    import subprocess
+    d = ctx.sub("trace")
+    tf = os.path.join(d, "trace.ndjson")
+    env = vlib.goenv()
+    env["VERIF_TRACE"] = tf
+    for pkg, tests in plan:
+        out = os.path.join(d, "test-" + pkg.strip("./").replace("/", "_"))
+        cmd = ["go", "test", "-c", "-tags", "verif", "-vet=off", "-o", out, pkg]
+        r = subprocess.run(cmd, cwd=ctx.repo, env=vlib.goenv(), capture_output=True, text=True)
+        if r.returncode != 0 or not os.path.exists(out):
+            raise vlib.InfraError("go test -c -tags verif %s failed:\n%s" % (pkg, (r.stdout + r.stderr)[-3000:]))
+        runs = [["-test.run", "^%s$" % t] for t in tests] if tests else [[]]
+        for extra in runs:
+            try:
+                subprocess.run([out, "-test.count=1", "-test.parallel=1"] + extra, cwd=os.path.join(ctx.repo, pkg), env=env,
+                               capture_output=True, text=True, timeout=timeout)
+            except subprocess.TimeoutExpired:
+                raise vlib.InfraError("test binary of %s timed out while recording traces" % pkg)
+    if not os.path.exists(tf):
+        raise vlib.InfraError("the tests recorded no trace (VERIF_TRACE not honoured?)")
+    segs = {}
+    with open(tf) as f:
+        for line in f:
+            try:
+                e = json.loads(line)
+            except ValueError:
+                raise vlib.InfraError("corrupt trace line %r" % line[:200])
+            if e.get("ev") not in TRACE_EVS:
+                continue
+            segs.setdefault(e["pid"], []).append({
+                "ev": e["ev"], "prog": e.get("prog") or "", "vm": e.get("vm") or "",
+                "err": e.get("err") is not None and e["ev"] == "rt.load.add", "nprogs": int(e.get("nprogs", 0) or 0),
+                "seq": e["seq"]})
+    for evs in segs.values():
+        evs.sort(key=lambda e: e["seq"])
+    return segs
+
+
+def validate_traces(ctx, seglist, label="TraceRuntime"):
+    """seglist: list of event lists.  Returns the set of accepted segment numbers (1-based)."""
+    d = ctx.sub("tracefiles")
+    tf, sf = os.path.join(d, "events.ndjson"), os.path.join(d, "segs.ndjson")
+    n = 0
+    with open(tf, "w") as f, open(sf, "w") as g:
+        for evs in seglist:
+            first = n + 1
+            for e in evs:
+                f.write(json.dumps({k: e[k] for k in ("ev", "prog", "vm", "err", "nprogs")}) + "\n")
+                n += 1
+            g.write(json.dumps({"first": first, "last": n}) + "\n")
+    cfg = ("SPECIFICATION TraceSpec\nCONSTANTS\n  TraceFile = \"%s\"\n  SegFile = \"%s\"\nINVARIANT Reached\n"
+           "CHECK_DEADLOCK FALSE\n" % (tf, sf))
+    r = vlib.tlc(ctx, "TraceRuntime", cfg, workers=2, timeout=1500, label=label)
+    return {c["accept"] for c in r.cases if "accept" in c}
+
+
+def stuck_at(ctx, evs):
+    """Index (0-based) of the first event TraceRuntime.tla cannot consume in one rejected segment."""
+    d = ctx.sub("tracediag")
+    tf, sf = os.path.join(d, "events.ndjson"), os.path.join(d, "segs.ndjson")
+    with open(tf, "w") as f:
+        for e in evs:
+            f.write(json.dumps({k: e[k] for k in ("ev", "prog", "vm", "err", "nprogs")}) + "\n")
+    with open(sf, "w") as g:
+        g.write(json.dumps({"first": 1, "last": len(evs)}) + "\n")
+    cfg = ("SPECIFICATION TraceSpec\nCONSTANTS\n  TraceFile = \"%s\"\n  SegFile = \"%s\"\nINVARIANT Mark\n"
+           "CHECK_DEADLOCK FALSE\n" % (tf, sf))
+    r = vlib.tlc(ctx, "TraceRuntime", cfg, workers=1, timeout=1500, label="TraceRuntime-diagnosis")
+    return max(c["at"] for c in r.cases) - 1
+
+
+TRACE_PLAN = [("./internal/runtime", None),
+              ("./internal/mtail", ["TestNewProg", "TestProgramReloadNoDuplicateMetrics", "TestProgramUnloadIfDeleted",
+                                    "TestBadProgramFailsCompilation"])]
+
+
+def direction_b(ctx, what, pkgs=TRACE_PLAN):
+    """Record the repository's tests, validate every test process against TraceRuntime.tla, self-test the
+    binding (a dropped and a corrupted event must be rejected).  A rejected segment is recorded again and
+    only a reproduced rejection is a violation."""
+    segs = record_tests(ctx, pkgs)
+    seglist = [evs for _pid, evs in sorted(segs.items()) if evs]
+    if not seglist:
+        raise vlib.InfraError("no runtime events in the recorded traces of %s" % (pkgs,))
+    # binding self-test on copies
+    victim = next((evs for evs in seglist if any(e["ev"] == "rt.load.swapped" for e in evs)
+                   and any(e["ev"] == "rt.line.sent" for e in evs)), None)
+    tests = list(seglist)
+    nself = 0
+    if victim is not None:
+        k = next(j for j, e in enumerate(victim) if e["ev"] == "rt.load.registered")
+        tests.append(victim[:k] + victim[k + 1:])                             # a dropped event
+        k = next(j for j, e in enumerate(victim) if e["ev"] == "rt.line.sent")
+        tests.append(victim[:k] + [dict(victim[k], vm="0xdead")] + victim[k + 1:])   # a corrupted field
+        nself = 2
+    acc = validate_traces(ctx, tests)
+    n = len(seglist)
+    if nself and (n + 1 in acc or n + 2 in acc):
+        raise vlib.InfraError("TraceRuntime.tla accepted a trace with a dropped/corrupted event: binding broken")
+    nev = sum(len(e) for e in seglist)
+    bad = [k for k in range(1, n + 1) if k not in acc]
+    for k in bad:
+        at = stuck_at(ctx, seglist[k - 1])
+        # reproduce from a clean start
+        segs2 = record_tests(ctx, pkgs)
+        list2 = [evs for _pid, evs in sorted(segs2.items()) if evs]
+        acc2 = validate_traces(ctx, list2, label="TraceRuntime-again")
+        if len(acc2) == len(list2):
+            vlib.log("direction B: a rejected trace was not reproduced (segment %d stopped at event %d)" % (k, at))
+            continue
+        ev = seglist[k - 1][at] if at < len(seglist[k - 1]) else None
+        ctx.violation({"direction": "B", "packages": list(pkgs), "segment": k, "stopped_at": at, "event": ev,
+                       "context": seglist[k - 1][max(0, at - 8):at + 1]},
+                      "%s: a recorded trace of the repository's tests is not a behaviour of spec/TraceRuntime.tla: event %s" % (
+                          what, json.dumps(ev)))
+        break
+    ctx.cov["traces_validated_against_impl"] += n
+    ctx.sample({"direction": "B", "recorded_from": [p for p, _ in pkgs], "first_events": seglist[-1][:6]})
+    ctx.cov["trace_events_validated"] = ctx.cov.get("trace_events_validated", 0) + nev
+    vlib.log("direction B %s: %d test processes, %d events, %d accepted" % (what, n, nev, n - len(bad)))
+    return n, nev
